@@ -111,7 +111,27 @@ def lemmas(reg):
                 st = State({lam.args.args[0].arg: vfloat(av), lam.args.args[1].arg: vfloat(bb), "p": vfloat(pp)}, {}, TRUE)
                 vals.append(to_float(ex.eval(lam.body, st))[1])
             mono.append(("weight-monotone:_p2weight-lambda-line+%d" % (lam.lineno - fi.node.lineno), [a1 <= a2], vals[0] <= vals[1]))
-    return mono + [("coupling-lower-bound:base", ax + [origin, ci(0) == 0, cj(0) == 0] + accdef, acc(0) >= z3.Select(T, ci(0), cj(0))),
+    # transposition: two tables certified for D and for its transpose agree cell by cell (induction on a + b), so the score
+    # does not depend on the order of the two tracks - PROVIDED the distance matrix of the swapped call is the transpose
+    # (the matrix is formed outside the region: symmetry of _distance is covered by the bounded part)
+    T2, D2 = z3.Const("T2!c", A2), z3.Const("D2!c", A2)
+
+    def certcell(Tx, Dx, x, y):
+        v = z3.Select(Tx, x, y)
+        w = lambda px, py: WF(z3.Select(Tx, px, py), z3.Select(Dx, x, y))
+        tight = z3.Or(z3.And(x >= 1, y >= 1, v == w(x - 1, y - 1)), z3.And(x >= 1, v == w(x - 1, y)), z3.And(y >= 1, v == w(x, y - 1)))
+        lower_ = z3.And(z3.Implies(z3.And(x >= 1, y >= 1), v <= w(x - 1, y - 1)), z3.Implies(x >= 1, v <= w(x - 1, y)),
+                        z3.Implies(y >= 1, v <= w(x, y - 1)))
+        return z3.And(tight, lower_)
+    ih = [z3.Implies(z3.And(a >= 1, b >= 1), z3.Select(T, a - 1, b - 1) == z3.Select(T2, b - 1, a - 1)),
+          z3.Implies(a >= 1, z3.Select(T, a - 1, b) == z3.Select(T2, b, a - 1)),
+          z3.Implies(b >= 1, z3.Select(T, a, b - 1) == z3.Select(T2, b - 1, a))]
+    transp = [("transposed-tables-agree:base", [origin, z3.Select(T2, 0, 0) == WF(0, z3.Select(D2, 0, 0)), z3.Select(D2, 0, 0) == z3.Select(D, 0, 0)],
+               z3.Select(T, 0, 0) == z3.Select(T2, 0, 0)),
+              ("transposed-tables-agree:step", [0 <= a, a < N2, 0 <= b, b < N1, z3.Or(a > 0, b > 0), certcell(T, D, a, b), certcell(T2, D2, b, a),
+                                                z3.Select(D2, b, a) == z3.Select(D, a, b)] + ih,
+               z3.Select(T, a, b) == z3.Select(T2, b, a))]
+    return mono + transp + [("coupling-lower-bound:base", ax + [origin, ci(0) == 0, cj(0) == 0] + accdef, acc(0) >= z3.Select(T, ci(0), cj(0))),
             ("coupling-lower-bound:step", ax + [lower, k >= 0, step(k), 0 <= ci(k), ci(k) < N2, 0 <= cj(k), cj(k) < N1] + accdef +
              [acc(k) >= z3.Select(T, ci(k), cj(k))], acc(k + 1) >= z3.Select(T, ci(k + 1), cj(k + 1)))]
 
@@ -120,4 +140,6 @@ FUNCTIONS = [Q + "_dtw"]
 ASSUMPTIONS = ["_dtw: only the dynamic-programming region (from `T = np.zeros((N2, N1))` to the end of the backward while loop) is "
                "under contract; forming D, copying the track and _fillAF_dtw are bounded only",
                "the weight function is abstract: monotone in its first argument (true of A + B**p and max(A, B))",
+               "symmetry under swapping the tracks: lemma transposed-tables-agree (two certified tables for D and its transpose agree cell by cell, "
+               "hence the same score) is proved; that the swapped call's matrix IS the transpose (symmetry of _distance) is bounded only",
                "_fdtw (best-first search) is bounded only"]
